@@ -156,7 +156,17 @@ def run(ctx, rep):
     if good:
         body = " ".join(utext(s) for s in ql[0].body)
         good = "avail['price'] == price" in body and "self._piq = avail['size']" in body
-    rep.check(good, "R4", key(pl, None, "queue = size available at the order's own price"), pl)
+    if good:
+        # the scan may stop only once the order's own price has been found: the two sides of the book
+        # are sorted in opposite directions, so no price comparison other than equality is a valid exit
+        cfgq = ctx.cfg(pl)
+        for n in cfgq.live_nodes():
+            if n.kind == "stmt" and isinstance(n.ast, (ast.Break,)) and n.ast in walk_nodes(ql[0].body, ast.Break):
+                gs = [(utext(g.exprs[0]), pol) for g, pol in cfgq.guards(n.id)]
+                inner = [g for g in gs if "avail" in g[0]]
+                good = good and inner == [("avail['price'] == price", True)]
+        good = good and not walk_nodes(ql[0].body, (ast.Return, ast.Continue))
+    rep.check(good, "R4", key(pl, None, "queue = size available at the order's own price; the scan stops only on that price"), pl)
     piqw = sorted({f.qual for f, s, t, kind in all_stores(prog, "_piq")})
     rep.check(piqw == ["SimulatedOrder.__init__", "SimulatedOrder._calculate_process_available",
                        "SimulatedOrder._calculate_process_traded", "SimulatedOrder.place"], "R4",
@@ -224,6 +234,10 @@ MUTANTS = [
     dict(id="c06-queue-same-side", file=SIM, func="SimulatedOrder.place",
          old="                available = runner.ex.available_to_lay\n", new="                available = runner.ex.available_to_back\n", expect=["R4"],
          why="queue read from the wrong side"),
+    dict(id="c06-queue-scan-sorted-exit", file=SIM, func="SimulatedOrder.place",
+         old="                    self._piq = avail[\"size\"]\n                    break\n",
+         new="                    self._piq = avail[\"size\"]\n                    break\n                elif avail[\"price\"] > price:\n                    break\n",
+         expect=["R4"], why="a LAY behind the best back price gets no queue (back side is sorted descending)"),
     dict(id="c06-pending-matchable", file=MW, old="LIVE_STATUS = [\n    OrderStatus.EXECUTABLE,",
          new="LIVE_STATUS = [\n    OrderStatus.PENDING,\n    OrderStatus.EXECUTABLE,", expect=["R5"], why="orders matched before they arrive"),
     dict(id="c06-eligibility-lay-flipped", file=SIM, func="SimulatedOrder._process_traded",
